@@ -155,7 +155,7 @@ func TestCheck(t *testing.T) {
 			runSeq(env, rep, "C19", 4, 7, false)
 		}
 		runSched(t, env, rep, map[string]bool{"C19": true}, "sched-handle-taken-while-a-poll-is-in-flight", pick(lookupScenarios(), "S4 "), 2, 3)
-		runSched(t, env, rep, map[string]bool{"C19": true}, "sched-cache-writes-of-polls-and-lookups", pick(lookupScenarios(), "S2 ", "S9 "), 2, 3)
+		runSched(t, env, rep, map[string]bool{"C19": true}, "sched-cache-writes-of-polls-and-lookups", pick(lookupScenarios(), "S2 ", "S9 ", "S12 "), 2, 3)
 	case "C10":
 		checkC10(t, env, rep)
 	case "C11":
